@@ -74,6 +74,7 @@ def gate_status(prog, fi, seen=None):
 def check(prog, run):
     run.rule("R-gate", "run_by_name: _pre_run() < run() < _set_result(); _pre_run raises on missing fs/data/run_params; every mpe/mpe_from_plot override is gated before its first store", 12)
     run.rule("R-shared-data", "no in-place effect on values that may alias the bound data or a parameter, in every function reachable from run/mpe", 30)
+    run.rule("R-params-intact", "no in-place effect (pop/update/clear/append/item store/del) on a container that is, or is reached through a shallow copy of, the instance's run / mpe parameters, in every function reachable from run/mpe - a second run sees the same parameters", 25)
     run.rule("R-determinism", "no RNG / clock / environment read in those functions", 30)
     run.rule("R-result-fresh", "run() returns a newly constructed result; result/run_params/data/fs are assigned on the instance only", 8)
     run.rule("R-poser", "PoSER validation: only ValueError, count guard <= 1, yield after the run/mode check, generator exhausted in __init__", 5)
@@ -81,6 +82,7 @@ def check(prog, run):
     gate(prog, run)
     reach = reachable_set(prog)
     shared_data(prog, run, reach)
+    params_intact(prog, run, reach)
     determinism(prog, run, reach)
     result_fresh(prog, run)
     poser(prog, run)
@@ -330,7 +332,7 @@ def _origins(prog, fi, expr):
     pos, kwo, va, kwa = astq.params_of(fi.node)
     params = set(pos + kwo) - {"self", "cls"}
     if va:
-        params.add(va)
+        params.add(va.arg)
     org = {p_: {p_} for p_ in params}
 
     def of(e):
@@ -453,6 +455,244 @@ def shared_data(prog, run, reach):
             run.ob("R-shared-data", fi.qual, "no in-place effect on shared data", False if st else None, why + (f" - {detail}" if detail and st is not True else ""), witness=why[:80], file=f, node=n)
         if not bad:
             run.ob("R-shared-data", fi.qual, "no in-place effect on shared data", True, f"{len(alias)} may-alias names checked", file=f, node=fi.node)
+
+
+# ----------------------------------------------------------------------------- R-params-intact
+CONTAINER_MUTATORS = {"pop", "popitem", "update", "clear", "setdefault", "append", "extend", "insert", "remove", "sort", "reverse", "__setitem__", "__delitem__"}
+PARAM_ATTRS = ("run_params", "mpe_params")
+SHARING_READS = {"get", "values", "items", "model_copy", "copy"}      # shallow: what they hand out still shares the nested containers
+FRESH_CALLS = {"dict", "list", "set", "tuple", "sorted", "copy.deepcopy", "model_dump", "deepcopy"}
+
+
+def _params_origins(prog, fi, expr, depth=3, both=False):
+    """what the container `expr` may share with: 'self.params' (the instance's run/mpe parameters or something inside them) and/or
+    parameter names of fi.  Shallow copies (model_copy / copy.copy / .copy()) of a parameter object still share its nested containers, so
+    a FIELD read from one shares; the copy itself, used as a mapping, does not."""
+    pos, kwo, va, kwa = astq.params_of(fi.node)
+    params = set(pos + kwo) - {"self", "cls"}
+    for x in (va, kwa):
+        if x:
+            params.add(x.arg)
+    # org[name] = (origins of the object, origins of what is nested inside it)
+    # tokens: `p` - the object handed in as parameter p; `p.*` - something inside it; 'self.params'
+    org = {p_: ({p_}, {p_ + ".*"}) for p_ in params}
+
+    def of(e):
+        """(shares as an object, contents share)"""
+        if isinstance(e, ast.Name):
+            a, b = org.get(e.id, (set(), set()))
+            return set(a), set(b)
+        if isinstance(e, ast.Attribute):
+            if isinstance(e.value, ast.Name) and e.value.id == "self":
+                return ({"self.params"}, {"self.params"}) if e.attr in PARAM_ATTRS else (set(), set())
+            a, b = of(e.value)
+            return set(b), set(b)                  # a field of X is part of X's contents
+        if isinstance(e, ast.Subscript):
+            a, b = of(e.value)
+            return set(b), set(b)
+        if isinstance(e, ast.Starred):
+            return of(e.value)
+        if isinstance(e, (ast.Tuple, ast.List)):
+            r = set()
+            for x in e.elts:
+                r |= of(x)[0]
+            return set(), r
+        if isinstance(e, ast.Dict):
+            r = set()
+            for k_, x in zip(e.keys, e.values):
+                a, b = of(x)
+                r |= (b if k_ is None else a)
+            return set(), r
+        if isinstance(e, ast.IfExp):
+            a1, b1 = of(e.body)
+            a2, b2 = of(e.orelse)
+            return a1 | a2, b1 | b2
+        if isinstance(e, ast.BoolOp):
+            a, b = set(), set()
+            for x in e.values:
+                a1, b1 = of(x)
+                a |= a1
+                b |= b1
+            return a, b
+        if isinstance(e, ast.Call):
+            nm = astq.callee_name(prog, fi, e) or ""
+            if isinstance(e.func, ast.Attribute):
+                meth = e.func.attr
+                if meth in ("model_copy", "copy") and not any(k.arg == "deep" and not (isinstance(k.value, ast.Constant) and k.value.value is False) for k in e.keywords):
+                    a, b = of(e.func.value)
+                    return set(), set(b)            # a new object whose fields are the same objects
+                if meth in ("get", "pop", "setdefault"):
+                    a, b = of(e.func.value)
+                    return set(b), set(b)
+                if meth in ("values", "items"):
+                    a, b = of(e.func.value)
+                    return set(), set(b)
+            if nm in ("copy.copy",) and e.args:
+                a, b = of(e.args[0])
+                return set(), set(b)
+            if nm in ("dict", "list", "tuple") and e.args:
+                a, b = of(e.args[0])
+                return set(), set(b)                # new outer container, same inner objects
+            if nm in ("getattr",) and len(e.args) >= 2:
+                a, b = of(e.args[0])
+                return set(b), set(b)
+            r = prog.resolve_call(fi, e)
+            if isinstance(r, FuncInfo) and depth > 0 and r.node is not fi.node:
+                # what the helper returns, in terms of its own parameters and the instance's parameters
+                ra, rb = set(), set()
+                for ret in astq.own_returns(r.node) if hasattr(astq, "own_returns") else [x for x in ast.walk(r.node) if isinstance(x, ast.Return)]:
+                    if ret.value is not None:
+                        a1, b1 = _params_origins(prog, r, ret.value, depth - 1, both=True)
+                        ra |= a1
+                        rb |= b1
+                on_self = isinstance(e.func, ast.Attribute) and isinstance(e.func.value, ast.Name) and e.func.value.id == "self"
+                m_, errs = astq.bind_args(r.node, e, bound=isinstance(e.func, ast.Attribute) and r.cls is not None and not getattr(r, "is_static", False))
+
+                def back(orgs):
+                    out = set()
+                    for o in orgs:
+                        if o == "self.params":
+                            if on_self:
+                                out.add(o)
+                            continue
+                        inner = o.endswith(".*")
+                        pn = o[:-2] if inner else o
+                        for x in _arg_candidates(r.node, e, m_, pn):
+                            out |= of(x)[1 if inner else 0]
+                    return out
+                return back(ra), back(rb)
+            return set(), set()
+        if isinstance(e, ast.NamedExpr):
+            return of(e.value)
+        if isinstance(e, ast.DictComp):
+            return set(), of(e.value)[0]
+        if isinstance(e, (ast.ListComp, ast.SetComp, ast.GeneratorExp)):
+            return set(), of(e.elt)[0]
+        return set(), set()
+    changed = True
+    while changed:
+        changed = False
+        for n in ast.walk(fi.node):
+            pairs = []
+            if isinstance(n, (ast.Assign, ast.AnnAssign)) and getattr(n, "value", None) is not None:
+                tg = n.targets if isinstance(n, ast.Assign) else [n.target]
+                for t in tg:
+                    if isinstance(t, ast.Name):
+                        pairs.append((t.id, of(n.value)))
+                    elif isinstance(t, (ast.Tuple, ast.List)):
+                        if isinstance(n.value, (ast.Tuple, ast.List)) and len(n.value.elts) == len(t.elts) and not any(isinstance(x, ast.Starred) for x in t.elts + n.value.elts):
+                            for tt, vv in zip(t.elts, n.value.elts):
+                                if isinstance(tt, ast.Name):
+                                    pairs.append((tt.id, of(vv)))
+                        else:
+                            a, b = of(n.value)
+                            for tt in t.elts:
+                                tt = tt.value if isinstance(tt, ast.Starred) else tt
+                                if isinstance(tt, ast.Name):
+                                    pairs.append((tt.id, (set(b), set(b))))
+            elif isinstance(n, ast.NamedExpr) and isinstance(n.target, ast.Name):
+                pairs.append((n.target.id, of(n.value)))
+            elif isinstance(n, (ast.For, ast.comprehension)):
+                a, b = of(n.iter)
+                for tt in ([n.target] if isinstance(n.target, ast.Name) else list(ast.walk(n.target))):
+                    if isinstance(tt, ast.Name):
+                        pairs.append((tt.id, (set(b), set(b))))
+            elif isinstance(n, ast.With):
+                for it in n.items:
+                    if isinstance(it.optional_vars, ast.Name):
+                        pairs.append((it.optional_vars.id, of(it.context_expr)))
+            for nm_, (a, b) in pairs:
+                a0, b0 = org.get(nm_, (set(), set()))
+                if (a - a0) or (b - b0):
+                    org[nm_] = (a0 | a, b0 | b)
+                    changed = True
+    return of(expr) if both else of(expr)[0]
+
+
+def container_effects(fi):
+    """[(node, container expression, description)] of in-place effects on dict / list / model objects"""
+    out = []
+    for n in ast.walk(fi.node):
+        if isinstance(n, ast.Call) and isinstance(n.func, ast.Attribute) and n.func.attr in CONTAINER_MUTATORS:
+            out.append((n, n.func.value, f"`{astq.src(n, 50)}`"))
+        elif isinstance(n, (ast.Assign, ast.AugAssign, ast.AnnAssign)):
+            for t in (n.targets if isinstance(n, ast.Assign) else [n.target]):
+                for tt in (t.elts if isinstance(t, (ast.Tuple, ast.List)) else [t]):
+                    if isinstance(tt, ast.Subscript):
+                        out.append((n, tt.value, f"item store `{astq.src(tt, 40)} = ...`"))
+                    # field stores (`rp.sel_freq = sel_freq`) are the explicit setters of mpe(): not an effect inside a container
+        elif isinstance(n, ast.Delete):
+            for tt in n.targets:
+                if isinstance(tt, ast.Subscript):
+                    out.append((n, tt.value, f"`del {astq.src(tt, 40)}`"))
+    return out
+
+
+def _arg_candidates(callee, call, m_, pn):
+    """the argument expressions that may end up in parameter pn of callee at this call"""
+    a_ = m_.get(pn)
+    if isinstance(a_, ast.AST):
+        return [a_]
+    for k in call.keywords:
+        if k.arg == pn:
+            return [k.value]
+    va, kwa = callee.args.vararg, callee.args.kwarg
+    out = []
+    if va is not None and va.arg == pn:
+        return list(call.args)
+    if kwa is not None and kwa.arg == pn:
+        return [k.value for k in call.keywords]
+    if any(isinstance(x, ast.Starred) for x in call.args):
+        out += list(call.args)                      # positions after a spread are not known
+    out += [k.value for k in call.keywords if k.arg is None]
+    return out
+
+
+def _params_shared_at_callers(prog, fi, origins, depth=3, seen=()):
+    """True: the value shares storage with an instance's run / mpe parameters; False: it does not; None: not decided"""
+    if "self.params" in origins:
+        return True, f"is (part of) the instance's parameters in {fi.node.name}"
+    if not origins:
+        return False, ""
+    if depth == 0 or fi.qual in seen:
+        return None, "call chain too long"
+    und = None
+    for g, c in _callers(prog, fi):
+        m_, errs = astq.bind_args(fi.node, c, bound=isinstance(c.func, ast.Attribute) and fi.cls is not None and not getattr(fi, "is_static", False))
+        for p_ in origins:
+            inner = p_.endswith(".*")
+            pn = p_[:-2] if inner else p_
+            for e_ in _arg_candidates(fi.node, c, m_, pn):
+                og = _params_origins(prog, g, e_, both=True)[1 if inner else 0]
+                st, why = _params_shared_at_callers(prog, g, og, depth - 1, seen + (fi.qual,))
+                if st is True:
+                    return True, f"{g.node.name} passes `{astq.src(e_, 30)}`, which {why}"
+                if st is None:
+                    und = why
+    return (None, und) if und else (False, "")
+
+
+def params_intact(prog, run, reach):
+    n_eff = 0
+    for q in reach:
+        fi = prog.functions[q]
+        f = rel(prog.mods[fi.mod].path)
+        bad = 0
+        effs = container_effects(fi)
+        for n, cont, why in effs:
+            og = _params_origins(prog, fi, cont)
+            if not og:
+                continue
+            n_eff += 1
+            st, detail = _params_shared_at_callers(prog, fi, og)
+            if st is False:
+                continue
+            bad += 1
+            run.ob("R-params-intact", fi.qual, "parameters are not changed in place", False if st else None,
+                   f"{why} changes a container that {detail} - the next run / a run after mpe sees different parameters", witness=why[:80], file=f, node=n)
+        if not bad:
+            run.ob("R-params-intact", fi.qual, "parameters are not changed in place", True, f"{len(effs)} container effects, none on the parameters", file=f, node=fi.node)
+    run.extra["param_container_effects_examined"] = n_eff
 
 
 NONDET = ("numpy.random", "random.", "time.", "datetime.", "os.environ", "os.getenv", "uuid.", "secrets.", "numpy.random.", "scipy.stats")
@@ -635,6 +875,9 @@ def poser(prog, run):
     run.ob("R-poser", g.qual, "identical algorithm types in identical order are enforced", (types and not loose) if (types or loose) else False,
            ("type lists compared" if not loose else "algorithm types compared with isinstance(): subclasses of the first setup's algorithms are accepted") if (types or loose) else "no comparison of algorithm types",
            witness="no-type-check" if not loose else "isinstance", file=f, node=g.node)
+    # the type comparison ranges over ALL algorithms of every setup (a zip with the names / a slice silently drops the extra ones)
+    cov, cov_why = _type_guard_coverage(prog, g, [(s_, astq.expr_at(g, s_, s_.test)) for s_, t in guards if "type(" in t])
+    run.ob("R-poser", g.qual, "the type comparison covers every algorithm of every setup", cov, cov_why, witness="truncated-comparison", file=f, node=g.node)
     # exhausted in __init__
     exhausted = False
     for n in ast.walk(init.node):
@@ -643,6 +886,116 @@ def poser(prog, run):
                 if isinstance(c, ast.Call) and isinstance(c.func, ast.Attribute) and c.func.attr == "_init_setups":
                     exhausted = True
     run.ob("R-poser", init.qual, "validation generator is exhausted inside __init__", exhausted, "list built from _init_setups(...)" if exhausted else "the generator object is stored: validation would run lazily (or never)", witness="lazy", file=rel(prog.mods[init.mod].path), node=init.node)
+
+
+def _type_guard_coverage(prog, g, guards):
+    """True: every `type(v)` in the type guard has v ranging over all algorithms of a setup; False: the range is cut (zip without
+    strict=, slice, islice) and no guard compares the number of algorithms of every setup; None: a range we do not recognise"""
+    if not guards:
+        return None, "no type comparison to examine"
+    verdicts = []
+
+    def single_return(call):
+        r = prog.resolve_call(g, call)
+        if isinstance(r, FuncInfo):
+            rets = [x for x in ast.walk(r.node) if isinstance(x, ast.Return) and x.value is not None]
+            body = [b for b in r.node.body if not (isinstance(b, ast.Expr) and isinstance(b.value, ast.Constant))]
+            if len(rets) == 1 and len(body) == 1 and body[0] is rets[0]:
+                return rets[0].value
+        return None
+
+    def elt_of(e):
+        """the expression of one element of sequence e (for lists built by a comprehension / literal)"""
+        if isinstance(e, (ast.ListComp, ast.GeneratorExp, ast.SetComp)):
+            return e.elt
+        if isinstance(e, (ast.List, ast.Tuple)) and e.elts:
+            return e.elts[0]
+        return None
+
+    def classify(e, binders, depth=0):
+        """'full' | ('cut', why) | None for: the algorithms an iteration over e ranges over"""
+        if depth > 8:
+            return None
+        if isinstance(e, ast.Attribute) and e.attr == "algorithms":
+            return "full"
+        if isinstance(e, ast.Call):
+            fn = e.func
+            if isinstance(fn, ast.Attribute) and fn.attr in ("values", "items", "keys") and isinstance(fn.value, ast.Attribute) and fn.value.attr == "algorithms" and not e.args:
+                return "full"
+            if isinstance(fn, ast.Name) and fn.id in ("list", "tuple", "enumerate", "iter", "reversed") and e.args:
+                return classify(e.args[0], binders, depth + 1)
+            if isinstance(fn, ast.Name) and fn.id == "zip":
+                if any(k.arg == "strict" and isinstance(k.value, ast.Constant) and k.value.value is True for k in e.keywords):
+                    sub = [classify(a, binders, depth + 1) for a in e.args]
+                    return "full" if "full" in sub and not any(isinstance(x, tuple) for x in sub) else None
+                return ("cut", f"`{astq.src(e, 60)}` stops at the shorter sequence")
+            if (isinstance(fn, ast.Name) and fn.id == "islice") or (isinstance(fn, ast.Attribute) and fn.attr == "islice"):
+                return ("cut", f"`{astq.src(e, 60)}` takes a prefix")
+            ret = single_return(e)
+            if ret is not None:
+                return classify(ret, binders, depth + 1)
+            return None
+        if isinstance(e, ast.Subscript):
+            if isinstance(e.slice, ast.Slice):
+                if e.slice.lower is None and e.slice.upper is None:
+                    return classify(e.value, binders, depth + 1)
+                return ("cut", f"`{astq.src(e, 60)}` takes a part")
+            el = elt_of(e.value)
+            if el is not None:
+                return classify(el, binders, depth + 1)
+            return None
+        if isinstance(e, ast.Name) and e.id in binders:
+            it = binders[e.id]
+            el = elt_of(it)
+            if el is not None:
+                return classify(el, binders, depth + 1)
+            if isinstance(it, ast.Subscript) and isinstance(it.slice, ast.Slice):
+                return classify(it.value, binders, depth + 1)      # a part of the SETUPS: each of them still in full
+            return None
+        if isinstance(e, (ast.ListComp, ast.GeneratorExp)) and len(e.generators) == 1:
+            # a re-packaging comprehension: [(n, type(a)) for n, a in <it>] ranges over what <it> ranges over
+            return classify(e.generators[0].iter, binders, depth + 1)
+        return None
+    for s_, t in guards:
+        pm = astq.parent_map(t)
+        binders = {}
+        for n in ast.walk(t):
+            if isinstance(n, ast.comprehension):
+                for x in ast.walk(n.target):
+                    if isinstance(x, ast.Name):
+                        binders[x.id] = n.iter
+        for c in ast.walk(t):
+            if isinstance(c, ast.Call) and isinstance(c.func, ast.Name) and c.func.id == "type" and len(c.args) == 1 and isinstance(c.args[0], ast.Name):
+                v = c.args[0].id
+                comp = None
+                cur = c
+                while cur in pm:
+                    cur = pm[cur]
+                    if isinstance(cur, (ast.ListComp, ast.GeneratorExp, ast.SetComp, ast.DictComp)):
+                        comp = next((gen for gen in cur.generators if any(isinstance(x, ast.Name) and x.id == v for x in ast.walk(gen.target))), None)
+                        if comp is not None:
+                            break
+                if comp is None:
+                    verdicts.append(None)
+                    continue
+                verdicts.append(classify(comp.iter, binders))
+    cuts = [v for v in verdicts if isinstance(v, tuple)]
+    if cuts:
+        # compensated by a guard on the number of algorithms of EVERY setup?
+        for s_ in ast.walk(g.node):
+            if isinstance(s_, ast.If) and any(isinstance(x, ast.Raise) for x in s_.body):
+                t = astq.expr_at(g, s_, s_.test)
+                in_loop = astq.enclosing(astq.parent_map(g.node), s_, (ast.For,)) is not None
+                for c in ast.walk(t):
+                    if isinstance(c, ast.Call) and isinstance(c.func, ast.Name) and c.func.id == "len" and c.args and isinstance(c.args[0], ast.Attribute) and c.args[0].attr == "algorithms":
+                        base = c.args[0].value
+                        per_setup = isinstance(base, ast.Name) and (in_loop or any(isinstance(n, ast.comprehension) and any(isinstance(x, ast.Name) and x.id == base.id for x in ast.walk(n.target)) for n in ast.walk(t)))
+                        if per_setup:
+                            return True, f"{cuts[0][1]}, but the number of algorithms of every setup is compared as well"
+        return False, f"{cuts[0][1]}: a setup with more algorithms than that is accepted, the extra ones are never compared"
+    if verdicts and all(v == "full" for v in verdicts):
+        return True, f"{len(verdicts)} type list(s), each over all the algorithms of its setup"
+    return None, "the range of the type comparison is not of a recognised form"
 
 
 # ----------------------------------------------------------------------------- R-pickle
